@@ -307,9 +307,26 @@ class Linearizer:
                 return False
         return True
 
-    def feasible(self, cons):
+    def feasible(self, cons, nes=()):
+        """nes: disequalities [(Lin a, Lin b)] meaning a != b; decided by case split"""
+        if nes:
+            a, b = nes[0]
+            rest = nes[1:]
+            return (self.feasible(list(cons) + [b - a - Lin.const(1)], rest) or
+                    self.feasible(list(cons) + [a - b - Lin.const(1)], rest))
         rc = self.range_constraints(cons)
         return fm_feasible(list(cons) + rc)
+
+    def ne_pair(self, e, val):
+        """if boolean expr e having truth value val is a disequality of two linear forms, return them"""
+        e = self.pv.inline(e)
+        if e[0] == 'un' and e[1] == 'Not':
+            return self.ne_pair(e[2], 1 - val)
+        if e[0] == 'bin' and ((e[1] == 'Ne' and val == 1) or (e[1] == 'Eq' and val == 0)):
+            la, lb = self.lin(e[2]), self.lin(e[3])
+            if la is not None and lb is not None:
+                return (la, lb)
+        return None
 
 
 def bool_constraints(L, e, val):
@@ -345,6 +362,7 @@ def analyse(pv, fn, args=None, cons=None, facts=None, depth=0, chain=(), root=No
         pv.paths += 1
         ps = p.sym
         cs = list(cons0)
+        nes = []
         fs = dict(facts0)
         dec = {}
         for d in p.decisions:
@@ -396,13 +414,20 @@ def analyse(pv, fn, args=None, cons=None, facts=None, depth=0, chain=(), root=No
                             bc = [le - Lin.const(val), Lin.const(val) - le]
                     if bc is not None:
                         cs.extend(bc)
+                    elif val in (0, 1):
+                        np_ = L.ne_pair(e, val)
+                        if np_ is not None and len(nes) < 6:
+                            nes.append(np_)
                     fs[L.canon(pv.inline(e))] = val
                     if pv.assume:
                         cs.extend(pv.assume(fs, L) or [])
-                    if not L.feasible(cs):
+                    if not L.feasible(cs, nes):
                         feasible = False
         if feasible and on_path_end is not None:
-            on_path_end(p, cs, fs, L)
+            try:
+                on_path_end(p, cs, fs, L, nes)
+            except TypeError:
+                on_path_end(p, cs, fs, L)
     return failures
 
 
